@@ -85,7 +85,7 @@ def generate_feed(chk, name, wd, candidates, procs=8, maxnodes=14, maxdepth=5, n
     from concurrent.futures import ThreadPoolExecutor
     from checks import docfeed
     cfg = os.path.join(wd, f"{name}.cfg")
-    vlib.write_cfg(cfg, spec="FeedSpec", constants={"MaxNodes": maxnodes, "MaxDepth": maxdepth},
+    vlib.write_cfg(cfg, spec="FeedSpec", constants={"MaxNodes": maxnodes, "MaxDepth": maxdepth, "AllowAlias": "FALSE"},
                    invariants=["FeedInv"], postcondition="Consumed")
     feeds = []
     for i in range(procs):
@@ -162,3 +162,74 @@ def replay(chk, binary, ndjson, label, extra_args=(), parts=None, timeout=1200):
     cmds = [[binary, f, str(vlib.seed())] + list(extra_args) for f in files]
     res = vlib.run_parallel(cmds, timeout=timeout)
     return _collect(res, files, label)
+
+
+ALIAS_SCENARIOS = {
+    # name: list of ops (docfeed vocabulary) ending with an overlapping copy
+    "self (owned string)": [("set", "d", 1, [], ("s", "hello")), ("copy", "d", 1, [], "d", 1, [])],
+    "self (array)": [("deser", "d", 1, [], "[1,2]"), ("copy", "d", 1, [], "d", 1, [])],
+    "element <- whole document": [("deser", "d", 1, [], "[[1,2],3]"), ("copy", "d", 1, [("i", 0)], "d", 1, [])],
+    "root <- child": [("deser", "d", 1, [], "[[1,2],3]"), ("copy", "d", 1, [], "d", 1, [("i", 0)])],
+    "member <- ancestor member": [("deser", "d", 1, [], "{\"a\":{\"c\":1}}"), ("copy", "d", 1, [("k", "a"), ("k", "b")], "d", 1, [("k", "a")])],
+    "doc.set(member of itself)": [("deser", "d", 1, [], "{\"a\":[1,2]}"), ("docset", 1, "d", 1, [("k", "a")])],
+}
+
+
+def alias_probe(chk, binary, wd):
+    """Known finding alias-overlap: each scenario is annotated by the specification (value semantics) and
+    replayed in a process of its own (the pinned behaviour includes use-after-free and unbounded recursion)."""
+    import json
+    import subprocess
+    from checks import docfeed
+
+    def path(p):
+        return [{"k": x[1], "i": -1} if x[0] == "k" else {"k": "", "i": x[1]} for x in p]
+
+    def op(spec):
+        o = {"op": spec[0], "tb": "", "ti": 0, "tp": [], "v": docfeed.node("n"), "sb": "", "si": 0, "sp": [], "r": 0,
+             "i": 0, "k": "", "x": ""}
+        if spec[0] == "set":
+            o.update(tb=spec[1], ti=spec[2], tp=path(spec[3]), v=docfeed.node(spec[4][0], spec[4][1]))
+        elif spec[0] == "deser":
+            val = json.loads(spec[4])
+
+            def nd(x):
+                if isinstance(x, list):
+                    return docfeed.node("a", "", [nd(e) for e in x])
+                if isinstance(x, dict):
+                    return docfeed.node("o", "", [docfeed.node("m", k, [nd(v)]) for k, v in x.items()])
+                return docfeed.node("i", str(x))
+            o.update(tb=spec[1], ti=spec[2], tp=path(spec[3]), v=nd(val), x=spec[4])
+        elif spec[0] == "copy":
+            o.update(tb=spec[1], ti=spec[2], tp=path(spec[3]), sb=spec[4], si=spec[5], sp=path(spec[6]))
+        elif spec[0] == "docset":
+            o.update(tb="d", ti=spec[1], sb=spec[2], si=spec[3], sp=path(spec[4]))
+        return o
+    hits = 0
+    for name, ops in ALIAS_SCENARIOS.items():
+        feed = os.path.join(wd, "alias-feed.ndjson")
+        with open(feed, "w") as f:
+            f.write(json.dumps({"e": "reset", "nd": 1, "nr": 1}) + "\n")
+            for spec in ops:
+                f.write(json.dumps({"e": "op", "op": op(spec)}) + "\n")
+        cfg = os.path.join(wd, "alias.cfg")
+        vlib.write_cfg(cfg, spec="FeedSpec", constants={"MaxNodes": 30, "MaxDepth": 8, "AllowAlias": "TRUE"},
+                       invariants=["FeedInv"], postcondition="Consumed")
+        r = vlib.run_tlc("DocumentFeed", cfg, os.path.join(wd, "alias"), workers=1, timeout=300, env={"FEED": feed})
+        if not r.ok:
+            raise vlib.InfraError("alias probe: TLC failed: " + vlib.tlc_error_excerpt(r))
+        stream = os.path.join(wd, "alias-stream.ndjson")
+        n = vlib.extract_emitted(r.out_path, "BEHAVIOUR", stream, dedupe=False)
+        if n != len(ops) + 1:
+            raise vlib.InfraError(f"alias probe {name}: specification did not accept the scenario")
+        try:
+            p = subprocess.run([binary, stream, "1", "2", "--stream"], capture_output=True, text=True, timeout=20,
+                               errors="replace")
+            bad = p.returncode != 0
+            what = (p.stdout + p.stderr)[-300:].replace("\n", " ")
+        except subprocess.TimeoutExpired:
+            bad, what = True, "does not terminate"
+        if bad:
+            hits += 1
+            chk.violation(f"alias-overlap: overlapping copy '{name}' does not behave as a copy of the source's value: {what}")
+    chk.phase("alias-probe", scenarios=len(ALIAS_SCENARIOS), misbehaving=hits)
